@@ -582,11 +582,11 @@ def voxel_filter(points: torch.Tensor, voxel: List[float], random:bool = False):
     unique_indices, inverse_indices, counts = torch.unique(
         indices, dim=-2, return_inverse=True, return_counts=True)
     if random:
-        sorting_indices = torch.argsort(inverse_indices).squeeze()
+        sorting_indices = torch.argsort(inverse_indices)
         sorted_points = points[sorting_indices, :]
         _rand = [torch.randint(low=0, high=count.item(), size=(1,), device=points.device) for count in counts]
         random_indices = torch.cat(_rand)
-        selected_indices = (random_indices + torch.cumsum(counts, dim=0) - counts).squeeze()
+        selected_indices = random_indices + torch.cumsum(counts, dim=0) - counts
         return sorted_points[..., selected_indices, :]
     else:
         means = torch.zeros_like(unique_indices, **kwargs)
